@@ -220,13 +220,16 @@ class C05(Spec):
                  'element identities, invariant over all histories); the model is tied to the C code by running generated histories on the '
                  'real containers with a probe element type and a token ledger, comparing per operation the constructed / finalised / '
                  'in-place-assigned elements and the contents; independent ledger oracle under ASan')
-    level_text = ('Theorems C05_conservation, C05_history, C05_never_while_contained, C05_deep: in the ownership model of the container code, '
-                  'every operation conserves element identities (contents after + finalised = contents before + constructed), constructed '
-                  'identities are fresh, so over every history of in-contract operations each element is finalised at most once, never while '
-                  'contained, the live elements are exactly the union of the container contents, and after deleting every container every '
-                  'element ever constructed has been finalised exactly once; copies/assignments construct one fresh element per source '
-                  'element and later operations on one side leave the other unchanged. The model is validated against the real containers '
-                  'per operation on thousands of generated histories.')
+    level_text = ('Theorems C05_conservation_{array,list,map,partial}, C05_history_partial, C05_live_count_partial, '
+                  'C05_never_while_contained_partial, C05_deep_{partial,assign_partial,independent,no_foreign_finalise}, '
+                  'C05_refused_no_effect_partial: in the ownership model of the container code, every operation conserves element identities '
+                  '(contents after + finalised = contents before + constructed), constructed identities are fresh, so over every history of '
+                  'in-contract operations each element is finalised at most once, never while contained, the live elements are exactly the '
+                  'union of the container contents (live count = sum of sizes), a refused call constructs and finalises nothing, and after '
+                  'deleting every container every element ever constructed has been finalised exactly once; copy/assign construct one fresh '
+                  'element per source element and operations on one side leave the other unchanged. C05_source_profile ties the model to the '
+                  'source text (which function calls destruct/assign/memcpy in which order), regenerated every run. The model is validated '
+                  'against the real containers per operation on generated histories; the full statements are refuted for the two known findings.')
     level_note = ('Trusted: Lean kernel; harness/driver comparison (testing) for the step correspondence; the probe element type stands for '
                   '"an element type with its own constructor, assignment and destructor that owns heap memory". Known findings excluded from '
                   'the contract: Box_Assign is shallow (F28), List_Resize growing a list links unconstructed elements. '
@@ -253,8 +256,8 @@ class C05(Spec):
         quick = tier == 'quick'
         cs = []
         def add(name, lines): cs.append(Case(name, lines))
-        nh = (8 if quick else 60) * boost
-        nops = 250 if quick else 1500
+        nh = (8 if quick else 90) * boost
+        nops = 250 if quick else 2000
         allk = {'A': 3, 'L': 3, 'T': 3, 'R': 3, 'B': 1}
         for i in range(nh): add(f'mixed{i}', history(rng, nops, allk))
         for i in range(nh): add(f'seq{i}', history(rng, nops, {'A': 3, 'L': 3}, paymax=12))
